@@ -500,6 +500,61 @@ def run_special(res):
         res.violation("C09/I9-input-forms/special:bare-name-from-two-modules/first-caller-wins",
                       f"static_order('Thing') from module A -> root {short(oa.val[-1].type if oa.ok and oa.val else oa.exc, 60)}, from module B -> root {short(ob.val[-1].type if ob.ok and ob.val else ob.exc, 60)}",
                       dict(case, name="two-modules"))
+    # (w10) type variables stand for their bound / constraints also behind a qualifier; `Any` as a GENERIC ARGUMENT is a member like any other
+    # (an `Any` FIELD of a structured class is no claim): direct predecessor clauses on the real order
+    tv = prelude.mkmod("tlg_c09_typevars", "import dataclasses, typing\n@dataclasses.dataclass\nclass Unit:\n    n: int = 0\nT = typing.TypeVar('T', bound=Unit)\nC = typing.TypeVar('C', int, str)\n"
+                                           "@dataclasses.dataclass\nclass Holder(typing.Generic[T]):\n    item: typing.Final[T] = None\n    many: list[T] = dataclasses.field(default_factory=list)\n"
+                                           "@dataclasses.dataclass\nclass HolderCV(typing.Generic[T]):\n    shared: typing.ClassVar[T] = None\n    plain: T = None\n    c: typing.Final[C] = 0\n"
+                                           "@dataclasses.dataclass\nclass Cells:\n    cells: tuple[str, typing.Any] = ()\n    rows: list[tuple[typing.Any, int]] = dataclasses.field(default_factory=list)\n").__dict__
+    Unit, Tv, Cv = tv["Unit"], tv["T"], tv["C"]
+
+    def idx(nodes, pred):
+        return [i for i, n in enumerate(nodes) if pred(n)]
+
+    def is_any(n):
+        return n.unwrapped is typing.Any
+
+    checks = [
+        ("Holder", tv["Holder"], [("item: Final[T] stands for the bound", lambda n: n.var == "item", lambda n: n.unwrapped is Unit),
+                                   ("the bound's members precede it", lambda n: n.var == "item", None, lambda n: n.var == "n" and n.unwrapped is int)]),
+        ("HolderCV", tv["HolderCV"], [("plain: T stands for the bound", lambda n: n.var == "plain", lambda n: n.unwrapped is Unit),
+                                       ("c: Final[C] stands for the union of its constraints", lambda n: n.var == "c", lambda n: n.unwrapped == typing.Union[int, str]),
+                                       ("the constraint members precede it", lambda n: n.var == "c", None, lambda n: n.unwrapped is str and n.var is None)]),
+        ("Final[T]", typing.Final[Tv], [("root stands for the bound", lambda n: n.type == typing.Final[Tv], lambda n: n.unwrapped is Unit),
+                                        ("the bound's members precede the root", lambda n: n.type == typing.Final[Tv], None, lambda n: n.var == "n" and n.unwrapped is int)]),
+        ("list[T]", list[Tv], [("the bound precedes the list", lambda n: n.type == list[Tv], None, lambda n: n.unwrapped is Unit)]),
+        ("tuple[int, Any]", tuple[int, typing.Any], [("Any argument precedes the tuple", lambda n: n.type == tuple[int, typing.Any], None, is_any)]),
+        ("list[tuple[Any, str]]", list[tuple[typing.Any, str]], [("Any argument precedes the inner tuple", lambda n: n.type == tuple[typing.Any, str], None, is_any)]),
+        ("dict[str, Any]", dict[str, typing.Any], [("Any argument precedes the dict", lambda n: n.type == dict[str, typing.Any], None, is_any)]),
+        ("list[Any]", list[typing.Any], [("Any argument precedes the list", lambda n: n.type == list[typing.Any], None, is_any)]),
+        ("Cells", tv["Cells"], [("Any argument precedes the fixed tuple field", lambda n: n.var == "cells", None, is_any),
+                                ("Any argument precedes the tuple below the list field", lambda n: n.type == tuple[typing.Any, int], None, is_any)]),
+    ]
+    for nm, root, clauses in checks:
+        cold.clear_all()
+        o = timed(E.BUILD_LIMIT, lambda root=root: list(graph.static_order(root)))
+        res.evals += 1
+        res.outcomes.add(h64("special", "typevars", nm, "ok" if o.ok else o.excname))
+        if not o.ok:
+            res.violation(f"C09/I1-terminates/special:typevars/{nm}/{'no-termination' if o.timeout else o.excname}", f"static_order({nm}): {o!r}", dict(case, name=nm))
+            continue
+        nodes = o.val
+        keys = [(repr(n.type), n.var) for n in nodes]
+        if len(set(keys)) != len(keys) or not (nodes and nodes[-1].type == root):
+            res.violation(f"C09/I2-I3/special:typevars/{nm}", f"static_order({nm}) has duplicates or does not end with the root: {[short(n, 50) for n in nodes]}", dict(case, name=nm))
+        for cl in clauses:
+            label, pick, prop = cl[0], cl[1], cl[2]
+            before = cl[3] if len(cl) > 3 else None
+            at = idx(nodes, pick)
+            bad = None
+            if not at:
+                bad = "node-missing"
+            elif prop is not None and not all(prop(nodes[i]) for i in at):
+                bad = "wrong-unwrapped-form"
+            elif before is not None and not idx(nodes[: at[0]], before):
+                bad = "member-node-missing-before-it"
+            if bad:
+                res.violation(f"C09/I4-members-precede/special:typevars/{nm}/{bad}", f"static_order({nm}): {label} - {bad}; order = {[short(n, 60) for n in nodes]}", dict(case, name=nm))
     res.samples.append({"special": "nested classes, string/recursive aliases, wrappers, qualifier-labelled revisits, same-named classes in two modules"})
 
 
@@ -513,7 +568,7 @@ def run_unit(unit, tier, res):
     else:
         s, a, b = unit
         for off, term in enumerate(E.unit_terms(unit)):
-            if "PCinit" in term.src or "SOleaf" in term.src or "PCfin" in term.src:
+            if "PCinit" in term.src or "SOleaf" in term.src:
                 # a class hinted only by the STRING annotations of its __init__: its members are references written by the user, which the
                 # graph carries as plain (unflagged, non-revisit) reference nodes - the property speaks about the deferred nodes the graph
                 # itself creates for revisits; such classes are outside its universe here (they are judged behaviourally by C01/C03/C05/C07)
